@@ -51,6 +51,11 @@ type Zlisp struct {
 
 	// API use, since infix is already default at repl
 	WrapLoadExpressionsInInfix bool
+
+	// sandboxed is set by NewZlispSandbox (and inherited by Clone and
+	// Duplicate): the interpreter must not touch files, processes or
+	// the environment, also after StandardSetup().
+	sandboxed bool
 }
 
 // allow clients to establish a callback to
@@ -89,7 +94,9 @@ func (env *Zlisp) Close() error {
 // NewZlispSandbox returns a new *Zlisp instance that does not allow the
 // user to get to the outside world
 func NewZlispSandbox() *Zlisp {
-	return NewZlispWithFuncs(SandboxSafeFunctions())
+	env := NewZlispWithFuncs(SandboxSafeFunctions())
+	env.sandboxed = true
+	return env
 }
 
 // NewZlispWithFuncs returns a new *Zlisp instance with access to only the given builtin functions
@@ -173,6 +180,7 @@ func (env *Zlisp) Clone() *Zlisp {
 	dupenv.debugExec = env.debugExec
 	dupenv.debugSymbolNotFound = env.debugSymbolNotFound
 	dupenv.showGlobalScope = env.showGlobalScope
+	dupenv.sandboxed = env.sandboxed
 	dupenv.WrapLoadExpressionsInInfix = env.WrapLoadExpressionsInInfix
 	dupenv.booter = env.booter
 	return dupenv
@@ -205,6 +213,7 @@ func (env *Zlisp) Duplicate() *Zlisp {
 	dupenv.debugExec = env.debugExec
 	dupenv.debugSymbolNotFound = env.debugSymbolNotFound
 	dupenv.showGlobalScope = env.showGlobalScope
+	dupenv.sandboxed = env.sandboxed
 	dupenv.WrapLoadExpressionsInInfix = env.WrapLoadExpressionsInInfix
 	dupenv.booter = env.booter
 
